@@ -413,6 +413,28 @@ def c01_r4(ctx, f):
                             _ = phis
                         # source = the bit string's bytes
                         ok = ok and contains(byte[2][0], ("param", 2))
+        if not ok:
+            # the same bit written the other way round: ((bytes[idx/8] >> (7 - idx%8)) & 1) == 1   (or != 0)
+            w = v
+            if w[0] == "bin" and ((w[1] == "Eq" and K(w[3]) == 1) or (w[1] == "Ne" and K(w[3]) == 0)):
+                m = w[2]
+                if m[0] == "bin" and m[1] == "BitAnd" and (K(m[3]) == 1 or K(m[2]) == 1):
+                    sh_ = m[2] if K(m[3]) == 1 else m[3]
+                    if sh_[0] == "bin" and sh_[1] == "Shr":
+                        byte = strip_refs(sh_[2])
+                        if byte[0] == "call" and byte[1] == "vec_index":
+                            bi = poly.normalise(byte[2][1], ren)
+                            sh = poly.normalise(sh_[3], ren)
+                            ia = [a for a in (set(_flat_atoms(bi)) | set(_flat_atoms(sh))) if isinstance(a, tuple) and a[0] == "phi"]
+                            if len(set(ia)) == 1:
+                                idx = A(ia[0])
+                                idx_phi.add(ia[0])
+                                ok = bi == poly.op("Div", idx, C(8)) and sh == C(7) - poly.op("Rem", idx, C(8)) and contains(byte[2][0], ("param", 2))
+                                found = "(bytes[%s] >> %s) & 1" % (bi.show({ia[0]: "idx"}), sh.show({ia[0]: "idx"}))
+            if not ok and not (v[0] == "bin" and v[1] in ("Ne", "Eq")):
+                # the value is computed in a way this rule does not read (a helper, a different bit extraction): no verdict
+                ctx.abstain(rid, "value placed by set() #%d is not a bit test the rule reads: %s" % (k, found[:120]), c.where())
+                continue
         ctx.check(rid, ok, "%s/bit-order/%d" % (fn.path, k), c.where(), fn.path, "value placed by set() #%d" % k,
                   "the module value is not bit (7 - idx mod 8) of byte idx/8 of the codeword sequence (most significant bit first)",
                   expected="bytes[idx/8] & (1 << (7 - idx%8)) != 0", found=found, sample="bit = bytes[idx/8] >> (7 - idx%8) & 1")
